@@ -23,8 +23,9 @@ META = {
              "document lists that a streaming target's writer receives exactly the in-order concatenation of the framed "
              "translations of each document taken alone, that zero documents write nothing, and that output is append-only. "
              "Re-framing is proved on the codec models for two targets: the JSON stream xt writes for N values (each followed by "
-             "a newline) is read back by both JSON loops as exactly N documents with the events written (floats under an explicit "
-             "premise on ryu), and back-to-back MessagePack values are recovered one by one. "
+             "a newline) is read back by both JSON loops as exactly N documents with the events written and contains exactly N line breaks "
+             "(floats included: on the model of serde_json's serialize_f64 / ryu, for every finite binary64, no premise), and "
+             "back-to-back MessagePack values are recovered one by one. "
              "The model is diffed against the real Translator on generated histories (0..6 calls in mixed source formats, "
              "0..5 documents per call, every separator style, slice and reader with random read schedules, refused documents, "
              "trailing garbage). The oracle checks on the implementation that N documents (N = 0..500, documents ending on and "
@@ -47,6 +48,10 @@ META = {
         "xt's chunker: observed by the oracle with Python json / PyYAML(core schema) / a hand-written MessagePack reader "
         "(tools/gen.py) as independent readers",
         "extraction (ExtrOcamlBasic only), model_driver/driver.ml, harness/src/session.rs, tools/*.py",
+        "hand-written Gallina model JsonFloatModel.v of serde_json's serialize_f64 and ryu 1.0's pretty::format64 (an executable "
+        "specification in exact integer arithmetic, not ryu's table-driven algorithm), tied to the code by the float-spelling (RY) and the "
+        "JSON->JSON / MessagePack->JSON (JW, MJ) correspondences; F64Proofs.v / JsonFloatTotalProofs.v prove about the MODEL that the reader's "
+        "conversion is correctly rounded and that every finite binary64 has a spelling that reads back",
     ],
     "assumptions": ["a document's serialization does not depend on the documents before it (checked: single-document runs "
                     "predict every history)"],
@@ -177,6 +182,18 @@ def run_count_oracle(outcome, tier, seed):
                     c["sched"] = sched
                 plans.append(("yaml", to, vals, len(reqs), c))
                 reqs.append({"id": len(reqs), "to": to, "calls": [c]})
+    # JSON streams in which an object repeats a key (both entries are one entry of one document, wherever the object sits):
+    # the count of documents an independent reader recovers from the JSON and MessagePack output is the count written
+    for text in (b'{"a":1,"a":2}\n[1,2]\n"x"\n', b'[1]\n{"k":{"b":1,"c":2,"b":3}}\n[2]\n[3]\n', b'{"a":[{"x":1,"x":2,"x":3}]} {"b":2} 5 [6]\n',
+                 b'{"a":1,"b":2,"a":3,"b":4}\n{"z":0}\n'):
+        vals = gen.read_documents(text, "json")
+        for to in ("msgpack", "json"):
+            for mode, sched in (("slice", None), ("reader", {"kind": "fixed", "n": 1}), ("reader", corpus.random_sched(rng))):
+                c = {"input": shared.hx(text), "from": "json", "mode": mode}
+                if sched:
+                    c["sched"] = sched
+                plans.append(("json", to, vals, len(reqs), c))
+                reqs.append({"id": len(reqs), "to": to, "calls": [c]})
     resps = common.harness_batch(reqs, timeout=900)
     for fmt, to, vals, i, c in plans:
         got = shared.session_result(resps[i])
@@ -274,6 +291,28 @@ def run_cli_oracle(outcome, tier, seed):
                                                     "exit status %d" % (want, {n: counts[n] for n in names}, r.stdout.count(b"\n"), r.returncode),
                                             "argv": ["-t", "json"] + names, "files_hex": {n: dict(fixed)[n].hex() for n in names},
                                             "stdout": r.stdout[:400].decode("utf-8", "replace"), "stderr": r.stderr[:300].decode("utf-8", "replace")})
+    # standard input as one of several inputs, redirected from a regular file that an earlier consumer of the descriptor has
+    # read up to a document boundary: the documents left are translated once, in their place
+    import tempfile
+    for to in STREAMING:
+        for skip, rest in ((b"", b'{"s":1}\n{"s":2}\n'), (b'{"hdr":0}\n{"hdr":1}\n', b'{"s":1}\n{"s":2}\n'), (b"h: 0\n---\n", b"s: 1\n---\ns: 2\n")):
+            outs = []
+            for argv, use_stdin in ((["a.toml"], False), (["-"], True), (["b.json"], False), (["a.toml", "-", "b.json"], True)):
+                with tempfile.TemporaryFile() as tf:
+                    tf.write(skip + rest)
+                    tf.flush()
+                    os.lseek(tf.fileno(), len(skip), os.SEEK_SET)
+                    r = subprocess.run([common.XT_DEBUG, "-t", to] + argv, cwd=d, stdin=tf if use_stdin else subprocess.DEVNULL,
+                                       stdout=subprocess.PIPE, stderr=subprocess.PIPE, timeout=60)
+                outs.append(r)
+            checked += 1
+            if any(r.returncode != 0 for r in outs) or outs[3].stdout != outs[0].stdout + outs[1].stdout + outs[2].stdout \
+                    or len(gen.read_documents(outs[1].stdout, to)) != 2:
+                outcome.oracle_failures.append({"what": "standard input redirected from a regular file positioned after %d bytes: `a.toml - b.json` is not the "
+                                                        "concatenation of the three translations, or the 2 documents left on standard input do not come out as 2"
+                                                        % len(skip), "argv": ["-t", to, "a.toml", "-", "b.json"], "stdin_file_hex": (skip + rest).hex(),
+                                                "stdin_offset": len(skip), "stdout": outs[3].stdout[:400].decode("utf-8", "replace"),
+                                                "stderr": outs[3].stderr[:300].decode("utf-8", "replace")})
     shutil.rmtree(d, ignore_errors=True)
     outcome.evaluations += checked
     outcome.distinct_nontrivial += checked
